@@ -5,37 +5,79 @@ import (
 	"ontosim/world"
 )
 
+var vbftReal = []string{"consensus/vbft Server (all loops, timers, msg/block/peer pools, syncer, state manager) x N", "core/store/ledgerstore per node on its own SimDisk", "p2pserver/message/types codec + payload signature check for every consensus message", "validator/increment", "smartcontract + native contracts (block execution)"}
+var vbftStub = []string{"p2p transport: SimNet implementing p2p.P2P (delivery order, loss, duplication, partitions decided by the tape)", "tx-pool actor (offers harness-built transactions, accepts every block)", "goroutine scheduling: every server goroutine parks at simhook gates, the tape releases one at a time", "wall clock: synctest bubble clock", "wasm JIT"}
+
 func init() {
 	simkit.Register(&simkit.Prop{
 		ID:   "C34",
 		Desc: "honest VBFT nodes never seal different blocks at one height",
-		Rule: "TODO",
-		Real: []string{"consensus/vbft Server (all loops, timers, pools, syncer, state manager)", "core/store/ledgerstore per node on SimDisk", "p2pserver/message/types codec for every consensus message"},
-		Stub: []string{"p2p transport (SimNet implementing p2p.P2P)", "tx pool actor (offers harness transactions, accepts every block)", "wasm JIT"},
-		Run:  runC34,
+		Rule: "a run = N real vbft servers (N=4,C=1 mostly; N=7,C=2 sometimes) on real ledgers sealing 2..4 heights; at every quiescent point the tape picks which parked server goroutine runs, which in-flight message is delivered (any one), drop/duplicate, clock advance (timeouts fire early or late), partition cut/heal, crash+restart of an honest node (faulty total <= C); sub-configuration per run: crash-fault-only / byzantine-no-equivocation (forged commit claims, multiple endorsements, withholding) / byzantine-equivocation (two different signed proposals); invariant after every step: all honest nodes agree on the sealed and on the committed block hash of every height. non-trivial = at least 2 heights sealed and at least one fault fired; distinct = distinct event-trace hash",
+		Real: vbftReal, Stub: vbftStub,
+		Assumptions:    []string{"at most C faulty peers (crashed honest + Byzantine) at any time", "safety only: progress and timeouts are measured and reported, never asserted", "the send loop goroutine is released eagerly (it only moves messages onto the simulated wire)"},
+		ExpectedProbes: []string{"sealed_2_heights", "all_reached_target"},
+		MaxShrinkRuns:  60,
+		Run:            runC34,
 	})
 }
 
 func runC34(c *simkit.Ctx) {
 	c.Bubble(func() {
+		t := c.Tape
 		n, cf := 4, 1
+		if t.Prob(1, 8) {
+			n, cf = 7, 2
+		}
+		mode := t.Pick(4, 3, 2, 2)
+		sig := []string{"crash-fault-timely", "crash-fault-async", "byzantine-no-equivocation", "byzantine-equivocation"}[mode]
+		o := vbftOpts{N: n, C: cf, MaxSteps: 9000, TargetHeight: uint32(2 + t.Choose(3)), Byz: -1}
+		// swarm: each fault kind enabled per run with its own rate
+		pickRate := func(rates ...int) int { return rates[t.Choose(len(rates))] }
+		o.Dup = pickRate(0, 0, 30, 100)
+		o.Reorder = pickRate(0, 300, 700)
+		if mode != 0 {
+			// asynchronous network: losses, partitions, and timeouts that fire while
+			// messages are still in flight. Mode 0 ("timely") delivers every message
+			// before the clock moves and loses nothing.
+			o.Drop = pickRate(0, 0, 20, 80, 200)
+			o.Partition = pickRate(0, 0, 2, 8)
+			o.TimeSkip = pickRate(0, 0, 5, 30)
+		}
+		if mode <= 1 {
+			o.Restart = pickRate(0, 0, 1, 3)
+		} else {
+			o.Byz = t.Choose(n)
+			o.ByzForgeCommit = pickRate(0, 20, 100)
+			o.ByzDoubleEndorse = pickRate(0, 20, 100)
+			o.ByzWithhold = pickRate(0, 0, 200)
+			o.ByzEquivocate = mode == 3
+		}
+		c.Logf("config N=%d C=%d mode=%s target=%d drop=%d dup=%d reorder=%d part=%d skip=%d restart=%d byz=%d", n, cf, sig, o.TargetHeight, o.Drop, o.Dup, o.Reorder, o.Partition, o.TimeSkip, o.Restart, o.Byz)
 		net := world.NewVbftNet(c, n, cf)
 		for _, nd := range net.Nodes {
 			c.Must(net.StartNode(nd), "start vbft server")
 		}
 		var maxH uint32
-		st := runVbft(c, net, vbftOpts{N: n, C: cf, MaxSteps: 12000, TargetHeight: 3,
-			Inv: func(net *world.VbftNet, step int) {
-				hs := vbftHeights(net)
-				for _, h := range hs {
-					if h > maxH {
-						maxH = h
-					}
+		o.Inv = func(net *world.VbftNet, step int) {
+			for _, h := range vbftHeights(net) {
+				if h > maxH {
+					maxH = h
 				}
-				checkAgreement(c, net, maxH, "crash-fault-only")
-			}})
-		c.Logf("end: steps=%d releases=%d delivered=%d timeadv=%d maxHeight=%d heights=%v", st.Steps, st.Releases, st.Delivered, st.TimeAdv, st.MaxHeight, vbftHeights(net))
+			}
+			checkAgreement(c, net, maxH, sig)
+		}
+		o.Stop = func() bool { return len(c.Known) > 0 } // a (known) fork ends the run: nothing after it is meaningful
+		st := runVbft(c, net, o)
+		c.Logf("end: steps=%d releases=%d delivered=%d dropped=%d timeadv=%d restarts=%d maxHeight=%d heights=%v simtime=%v reached=%v",
+			st.Steps, st.Releases, st.Delivered, st.Dropped, st.TimeAdv, st.Restarts, st.MaxHeight, vbftHeights(net), st.SimTime, st.Reached)
+		c.State("c34", sig, st.MaxHeight, st.Reached)
 		if st.MaxHeight >= 2 {
+			c.Probe("sealed_2_heights")
+		}
+		if st.Reached {
+			c.Probe("all_reached_target")
+		}
+		if st.MaxHeight >= 2 && len(c.Faults) > 0 {
 			c.NonTrivial()
 		}
 	})
